@@ -59,7 +59,7 @@ var (
 	sgReplaceableKinds = []int64{0, 3, 10002}
 	sgAddressableKinds = []int64{30000, 30023}
 	sgEphemeralKinds   = []int64{20001, 29999}
-	sgDValues          = []string{"", "x", "y:z"}
+	sgDValues          = []string{"", "x", "y:z", "X"} // "X": addresses that differ only in letter case are different addresses
 	SGTagValues        = []string{"", "v1", "v2"}
 )
 
@@ -68,7 +68,8 @@ func (g *StoreGen) at() int64 {
 		t := g.TimeBase + g.R.Int64N(g.TimeRange)
 		if !g.NoEdgeTimes && g.R.IntN(25) == 0 {
 			// far outside the window: the epoch, beyond int32 / float64 precision, near the end of int64
-			t = Pick(g.R, []int64{0, 1, 1 << 32, 1<<53 + 1, math.MaxInt64 - 1000}) + g.R.Int64N(100)
+			// (created_at is an unconstrained int64 in this code base: before the epoch is legal too)
+			t = Pick(g.R, []int64{0, 1, 1 << 32, 1<<53 + 1, math.MaxInt64 - 1000, -1000, -5000000000, math.MinInt64 + 1000}) + g.R.Int64N(100)
 		}
 		if !g.UniqueTimes {
 			return t
